@@ -269,6 +269,7 @@ def l10(led, rid, ctx):
             vb, vo = _lin(v)
             n += 1
             est = False
+            slacks = []
             for g in guards_of(f, c.bb):
                 rf = rel_fact(g)
                 if not rf:
@@ -284,14 +285,28 @@ def l10(led, rid, ctx):
                         if c.name == "upper_bound_predicate" and a_.a.name == "upper_bound":
                             if (o == "Le" and bo <= vo) or (o == "Lt" and bo - 1 <= vo) or (o == "Eq" and bo <= vo):
                                 est = True
+                                slacks.append((vo - {"Le": bo, "Lt": bo - 1, "Eq": bo}[o], show(a)[:40], o, show(b)[:40]))
                         if c.name == "lower_bound_predicate" and a_.a.name == "lower_bound":
                             if (o == "Ge" and bo >= vo) or (o == "Gt" and bo + 1 >= vo) or (o == "Eq" and bo >= vo):
                                 est = True
+                                slacks.append(({"Ge": bo, "Gt": bo + 1, "Eq": bo}[o] - vo, show(a)[:40], o, show(b)[:40]))
             root = (f.parent or f.defn)
             rshort = root.rsplit("::", 1)[-1]
             key = "%s:[%s %s %s]" % (rshort, x[-25:], ">=" if c.name[0] == "l" else "<=", show(v)[:40])
             if est:
                 led.ok(rid, key, c.span, "established by a dominating comparison")
+                # L13: the fact is as strong as the test it comes from.  The propagation is made on
+                # the branch of that test, so the test is a premise of the inference: a reason that
+                # is to justify the propagation in every state in which it holds has to make the
+                # same branch be taken there, i.e. has to imply the test.
+                sl = min(slacks)
+                led.check(sl[0] <= 0, "L13", key, c.span, "as strong as `%s %s %s`" % sl[1:],
+                          "%s states [%s %s %s] in a reason, which is weaker by %d than the test `%s %s %s` "
+                          "under which the propagation is made: the reason does not imply the branch "
+                          "condition, so there are assignments satisfying the constraint and the reason "
+                          "in which the propagated bound does not hold (all %d facts of this kind on the "
+                          "pinned tree restate their test exactly)"
+                          % (rshort, x, ">=" if c.name[0] == "l" else "<=", show(v)[:40], sl[0], sl[1], sl[2], sl[3], 45))
                 continue
             why = None
             for (fn_s, kind, mark), reason in L10_TABLE.items():
